@@ -1,4 +1,6 @@
 import I2N.Lemmas.Trav
+import I2N.Lemmas.TravLoc
+import I2N.Lemmas.TravProgress
 import I2N.Model.TravMon
 /-!
 # C08 — Tests run only on their own worker and are told where their setup lives
@@ -106,5 +108,111 @@ theorem named_sources_are_passers (g : Graph) (s : State) (p v : Nat) :
   · rintro ⟨r, hr, hp, h⟩
     refine ⟨r, hr, ?_⟩
     simp [hp, h]
+
+/-! ## the locations a test is told (`pull_locations`) -/
+
+/-- Completeness of `pull_locations`.  After `pullLocations g s n` of a parsed copy `n`, for every setup edge
+`(p, vms)` of `n`, every object `vm` of the edge and every location of the parent — the shared pool and the pool of
+every worker with a passing result of `p`'s class — the entry `get_location_<vm>` of `n` exists and contains the
+location (`strIn loc str`: Python's `loc in str`, the very test the code uses to avoid duplicates).
+`hn` says the copy has a dynamic record (true in every state the traversal reaches). -/
+theorem locations_complete (g : Graph) (s : State) (n : Nat) (hflat : (g.node n).flat = false)
+    (hn : n < s.nodes.length) (p : Nat) (vms : List String) (he : (p, vms) ∈ (g.node n).setup)
+    (vm : String) (hvm : vm ∈ vms)
+    (loc : String) (hloc : loc ∈ sharedLoc :: (sharedResultWorkerIds g s p).map (workerLoc g)) :
+    ∃ str, locOf ((pullLocations g s n).nd n).getLoc vm = some str ∧ strIn loc str = true :=
+  pullLocations_complete g s n hflat hn p vms he vm hvm loc hloc
+
+/-- Soundness of `pull_locations` (token form; no hypothesis on the worker ids needed).  Starting from no entries,
+the entry of `vm` is `joinLocs L` — the locations of `L` joined by single blanks in this order — for a non-empty
+list `L` each member of which is a location of a setup edge through `vm`: nothing else is ever listed.
+
+Partial: what is NOT true without a separation hypothesis on the worker ids is the converse in the token sense —
+a location may be missing from `L` because it is a substring of a location already listed (the duplicate test of
+the code is a substring test): see `location_swallowed_by_substring` below.  `locations_complete` gives the converse
+in the substring sense only. -/
+theorem locations_sound_partial (g : Graph) (s : State) (n : Nat) (hflat : (g.node n).flat = false)
+    (hn : n < s.nodes.length) (hempty : (s.nd n).getLoc = []) (vm str : String)
+    (h : locOf ((pullLocations g s n).nd n).getLoc vm = some str) :
+    ∃ L : List String, L ≠ [] ∧ str = joinLocs L ∧
+      ∀ l ∈ L, ∃ p vms, (p, vms) ∈ (g.node n).setup ∧ vm ∈ vms ∧
+        l ∈ sharedLoc :: (sharedResultWorkerIds g s p).map (workerLoc g) :=
+  pullLocations_sound g s n hflat hn hempty vm str h
+
+/-- two workers, one id a suffix of the other (what `nets=net1` over two clusters produces, finding F4); the parent
+`p = 0` has a passing result of either worker, the child `n = 1` depends on it through `vm1` -/
+def gSub : Graph :=
+  { workers := [{ id := "cluster1.net1", swarm := "cluster1" }, { id := "net1", swarm := "localhost" }],
+    nodes := [{ cls := 0, owner := some 0, name := "p.cluster1.net1", pfx := "1", cleanup := [(1, ["vm1"])] },
+              { cls := 1, owner := some 1, name := "n.net1", pfx := "2", setup := [(0, ["vm1"])] }],
+    root := 0 }
+
+def sSub : State :=
+  { nodes := [{ results := [{ name := "p.cluster1.net1", status := "PASS", uid := "1" },
+                            { name := "p.net1", status := "PASS", uid := "1r1" }] }, {}],
+    regs := [{}, {}], workers := [{}, {}], store := [] }
+
+/-- non-vacuity of `locations_complete` / `locations_sound_partial`, and the witness of what the substring test
+loses: both workers passed the parent, but the entry lists only the shared pool and `cluster1.net1`'s pool —
+`net1:/pool/swarm` is "already there" as a substring of `cluster1.net1:/pool/swarm`. -/
+theorem location_swallowed_by_substring :
+    sharedResultWorkerIds gSub sSub 0 = [0, 1] ∧
+    locOf ((pullLocations gSub sSub 1).nd 1).getLoc "vm1" = some ":/pool/shared cluster1.net1:/pool/swarm" ∧
+    joinLocs [sharedLoc, workerLoc gSub 0] = ":/pool/shared cluster1.net1:/pool/swarm" ∧
+    strIn (workerLoc gSub 1) ":/pool/shared cluster1.net1:/pool/swarm" = true := by decide
+
+example : ∃ str, locOf ((pullLocations gSub sSub 1).nd 1).getLoc "vm1" = some str ∧ strIn (workerLoc gSub 1) str = true :=
+  locations_complete gSub sSub 1 rfl (by decide) 0 ["vm1"] (by decide) "vm1" (by decide) _ (by decide)
+
+example := locations_sound_partial gSub sSub 1 rfl (by decide) rfl "vm1" _ location_swallowed_by_substring.2.1
+
+/-! ## ownership as a reachable-state invariant
+
+`ReachableF` (Lemmas/TravProgress.lean): initial state, then any sequence of `resume` steps of real workers with any
+outcomes and positive fuel (`ReachableF.reachable`: such a state is `Reachable` in the sense of C04).
+`EdgeSym g`: every edge is recorded at both ends (`edgeSymB g = true` is the decidable form). -/
+
+/-- Every node on a worker's path after the root is relevant to the worker: flat, or a copy whose name contains the
+worker's id. -/
+theorem path_owned (g : Graph) (hsym : EdgeSym g) (ncls : Nat) (store : List (String × List (String × String)))
+    (s : State) (h : ReachableF g ncls store s) (w : Nat) (hw : w < s.workers.length) :
+    ∀ x ∈ (s.wd w).path.tail, relevant g w x = true := by
+  rcases (h.pinv hsym).path w hw with h' | h'
+  · rw [h'.1]; intro x hx; simp at hx
+  · exact h'.tail
+
+/-- `runs_on_owner`, state form.  In every reachable state: a copy marked as started by `w` is relevant to `w`; the
+copy `n` a worker is executing (its pc is `.test n …`: inside the test or its result wait) has the worker's id in
+its name and is the last node of the worker's path; and under `OwnerNames` it was parsed for this worker. -/
+theorem runs_on_owner (g : Graph) (hsym : EdgeSym g) (ncls : Nat) (store : List (String × List (String × String)))
+    (s : State) (h : ReachableF g ncls store s) (n w : Nat) :
+    ((s.nd n).started = some w → relevant g w n = true) ∧
+    ((s.wd w).pc.node? = some n → g.idIn w n = true ∧ (s.wd w).path.getLast? = some n) :=
+  ⟨(h.pinv hsym).markRel n w, fun hp => ⟨((h.pinv hsym).testOwn w n hp).1, ((h.pinv hsym).testOwn w n hp).2.1⟩⟩
+
+/-- the names identify the owner: a parsed copy carries the id of worker `w` in its name iff it was parsed for `w`
+(what fails for ambiguous ids like `net1` / `cluster1.net1`, finding F4) -/
+def OwnerNames (g : Graph) : Prop :=
+  ∀ w n, (g.node n).flat = false → (g.idIn w n = true ↔ (g.node n).owner = some w)
+
+/-- `runs_on_owner`, event form.  Whenever a step of worker `w` from a reachable state emits a start event, the event
+carries `w`'s id and the class of a node `n` with `g.idIn w n` (the run decision raises otherwise:
+`foreign_worker_rejected`); under `OwnerNames` a parsed such `n` has `owner n = some w`. -/
+theorem runs_on_owner_events (g : Graph) (hsym : EdgeSym g) (ncls : Nat) (store : List (String × List (String × String)))
+    (s : State) (h : ReachableF g ncls store s) (w : Nat) (out : Outcome) (fuel : Nat)
+    (wid cls uid : String) (locs : List (String × String)) (unk : Nat)
+    (he : Event.start wid cls uid locs unk ∈ (resume g s w out fuel).2) :
+    wid = (g.worker w).id ∧ ∃ n ph, cls = clsName g n ph ∧ g.idIn w n = true ∧
+      (OwnerNames g → (g.node n).flat = false → (g.node n).owner = some w) := by
+  obtain ⟨h1, n, ph, h2, h3⟩ := resume_starts g hsym s w out fuel (h.pinv hsym) _ he
+  exact ⟨h1, n, ph, h2, h3, fun ho hf => (ho w n hf).mp h3⟩
+
+/-- non-vacuity: the two-node graph above is edge-symmetric, its first worker's first step from the initial state is
+a reachable state, and that step emits no start event for a foreign copy -/
+example : EdgeSym gSub := edgeSymB_sound (by decide)
+example : ReachableF gSub 2 [] (resume gSub (initState gSub 2 []) 0 ⟨none, 0⟩ 5).1 :=
+  .step _ 0 ⟨none, 0⟩ 5 (.init []) (by decide) (by decide)
+example := path_owned gSub (edgeSymB_sound (by decide)) 2 [] _
+  (.step _ 0 ⟨none, 0⟩ 5 (.init []) (by decide) (by decide)) 0
 
 end I2N.Props.C08
